@@ -7,10 +7,10 @@ PID = "C16"
 MANIFEST_ENTRY = {
  "level_claimed": {
   "category": "proof",
-  "text": "Theorems in coq/Properties/C16.v about executable models of both data stores' list construction and lookup (SimpleGarnishData: every item placed in an open-addressing table by address modulo length at end_list, lookup probes from symbol modulo length; BasicGarnishData: associations written beside the items, stably sorted at end_list, binary-searched) and of the runtime's index_list / access_with_symbol / concatenation iteration: the probe of the Simple lookup visits every slot and returns the value of the pair keyed by the symbol if the table holds one and 'absent' otherwise, never an error, for every mix of keyed and unkeyed items; end_list's placement keeps every item; the Basic binary search on a key-sorted association table finds exactly the keyed entry; the stable sort produces such a table. The models are tied to data/src/runtime.rs, data/src/basic/garnish/garnish_impl.rs, data/src/basic/search.rs, runtime/src/runtime/list.rs and traits/src/helpers/concatenation.rs on every run: all lists up to a bound over {number, text, symbol, pair keyed by symbol, pair keyed by non-symbol, nested list}, random larger lists with adversarial symbol values, both data implementations, read back through get_list_len / get_list_item / get_list_item_iter / get_list_item_with_symbol and through the Access and Apply operations and concatenations, on the real code and on the extracted model; an independent association-list oracle in Python checks the implementation directly.",
+  "text": "Theorems in coq/Properties/C16.v about executable models of both data stores' list construction and lookup (SimpleGarnishData: every item placed in an open-addressing table by address modulo length at end_list, lookup probes from symbol modulo length; BasicGarnishData: associations written beside the items, stably sorted at end_list, binary-searched) and of the runtime's index_list / access_with_symbol: for a list built from items i1..in with start_list/add_to_list/end_list on either store (Basic: from any state satisfying the C15 heap invariant) the length is n, index k yields ik, the items iterate in insertion order, and for distinct symbol keys looking a symbol up returns the value of the pair keyed by it if present and 'absent' otherwise, never an error, for every mix of keyed and unkeyed items (Simple: the probe visits every slot, the placement keeps every item; Basic: the stable sort puts the associations first in key order and the binary search finds exactly the keyed entry); outside 0..n-1 Simple answers 'no item', index_list answers 'no item'/unit on every store, and Basic's direct accessor answers 'no item' below 0 and Err past the end (finding C16-K1, stated as a theorem). The models are tied to data/src/runtime.rs, data/src/basic/garnish/garnish_impl.rs, data/src/basic/search.rs, runtime/src/runtime/list.rs and traits/src/helpers/concatenation.rs on every run: all lists up to a bound over {number, text, symbol, pair keyed by symbol, pair keyed by non-symbol, nested list}, random larger lists with adversarial symbol values, both data implementations, read back through get_list_len / get_list_item / get_list_item_iter / get_list_item_with_symbol and through the Access and Apply operations and concatenations, on the real code and on the extracted model; an independent association-list oracle in Python checks the implementation directly.",
   "design_ref": "DESIGN.md section 8 C16"
  },
- "level_note": "Known finding C16-K1 (BasicGarnishData::get_list_item called directly with an index >= length returns Err, pinned by an existing test) is excluded and re-confirmed on every run; through Access/Apply such an index yields unit on both stores (fixed in index_list). Assumes distinct symbol keys (as the property does), Integer indices, slice::sort_by stable. Trusted: Coq kernel, extraction, harness/src/bin/list.rs, ocaml/list_driver.ml, this file.",
+ "level_note": "Partial: the traversal of concatenations (iterate_concatenation_mut) and the Access/Apply dispatch are modelled and tied by correspondence on every run but have no theorem. Known finding C16-K1 (BasicGarnishData::get_list_item called directly with an index >= length returns Err, pinned by an existing test) is excluded and re-confirmed on every run; through Access/Apply such an index yields unit on both stores (fixed in index_list). Assumes distinct symbol keys (as the property does), Integer indices, slice::sort_by stable. Trusted: Coq kernel, extraction, harness/src/bin/list.rs, ocaml/list_driver.ml, this file.",
  "technique": "Coq proof (loop invariants for probe / placement / binary search, sortedness of the stable sort) over an executable model + differential correspondence with the Rust implementation"
 }
 
